@@ -5,3 +5,4 @@ pub mod lex488;
 pub mod bigint;
 pub mod decnum;
 pub mod respdec;
+pub mod lists;
